@@ -691,6 +691,11 @@ func (p *Prog) mayBeNil(v ssa.Value, seen map[ssa.Value]bool) bool {
 		return x.IsNil()
 	case *ssa.MakeInterface:
 		return false // a concrete value boxed into error is a non-nil interface
+	case *ssa.UnOp:
+		// a sentinel: `var errTruncated = errors.New(...)`, assigned once, in the package initialiser
+		if g, ok := x.X.(*ssa.Global); ok && x.Op == token.MUL && p.sentinelError(g) {
+			return false
+		}
 	case *ssa.Phi:
 		for _, e := range x.Edges {
 			if p.mayBeNil(e, seen) {
@@ -1130,4 +1135,47 @@ func constString(v ssa.Value) (string, bool) {
 		return "", false
 	}
 	return constant.StringVal(c.Value), true
+}
+
+// sentinelError: g is a package-level error variable of the module whose only store in the whole
+// module is `g = errors.New(...)` / `fmt.Errorf(...)` (or a boxed concrete value) in an init function.
+func (p *Prog) sentinelError(g *ssa.Global) bool {
+	if p.sentinels == nil {
+		p.sentinels = map[*ssa.Global]bool{}
+		stores := map[*ssa.Global]int{}
+		good := map[*ssa.Global]int{}
+		for _, fn := range p.Funcs {
+			for _, b := range fn.Blocks {
+				for _, in := range b.Instrs {
+					st, ok := in.(*ssa.Store)
+					if !ok {
+						continue
+					}
+					gg, ok := st.Addr.(*ssa.Global)
+					if !ok {
+						continue
+					}
+					stores[gg]++
+					if fn.Name() != "init" {
+						continue
+					}
+					switch v := st.Val.(type) {
+					case *ssa.Call:
+						switch p.calleeName(v.Common()) {
+						case "errors.New", "fmt.Errorf":
+							good[gg]++
+						}
+					case *ssa.MakeInterface:
+						good[gg]++
+					}
+				}
+			}
+		}
+		for gg, n := range stores {
+			if n == 1 && good[gg] == 1 {
+				p.sentinels[gg] = true
+			}
+		}
+	}
+	return p.sentinels[g]
 }
